@@ -742,7 +742,9 @@ Theorem a64_epilog_correct s0 s1 s2 :
   exists s3, run A64 (fst (epilog f o)) s2 = Some s3 /\ snd (epilog f o) = true /\
     st_ret s3 = Some (st_reg s0 0 30) /\ st_reg s3 0 31 = sp0 /\
     (forall g r, Z.testbit (qget (cc_preserved cc) g) r = true ->
-                 trunc (qget (cc_srsize cc) g) (st_reg s3 g r) = trunc (qget (cc_srsize cc) g) (st_reg s0 g r)).
+                 trunc (qget (cc_srsize cc) g) (st_reg s3 g r) = trunc (qget (cc_srsize cc) g) (st_reg s0 g r)) /\
+    st_mem s3 = st_mem s2 /\
+    (forall g r, (g, r) <> (0, 31) -> Z.testbit (saved_regs f o g) r = false -> st_reg s3 g r = st_reg s2 g r).
 Proof.
   intros sp0 PP BO Hal Hlr.
   destruct PP as [Qsp Qret Qfp Qregs Qsa Qmem Qgp Qvec]. fold sp0 in Qsp, Qfp, Qmem, Qgp, Qvec.
@@ -779,7 +781,7 @@ Proof.
               st_reg t3 0 31 = sp0 /\
               (forall r, In r (pairs_regs gps) -> st_reg t3 0 r = trunc 8 (st_reg s0 0 r)) /\
               (forall g' r, (g', r) <> (0, 31) -> (g' = 0 -> ~ In r (pairs_regs gps)) -> st_reg t3 g' r = st_reg t2 g' r) /\
-              st_ret t3 = None).
+              st_ret t3 = None /\ st_mem t3 = st_mem t2).
   { destruct (list_eq_dec_nil gps) as [Eg|Eg].
     - exists t2. rewrite Eg. cbn [rev map run]. splits; auto.
       + rewrite Hsp2. apply Hgpt0 in Eg. rewrite Eg. cbn [Z.eqb andb].
@@ -796,7 +798,7 @@ Proof.
         split; [apply T; auto; unfold spn; lia|]. intros y Hy. apply T; [unfold spn; lia | unfold spn; lia | apply B; auto]. }
       exists t3. split; [exact Hrun3|]. splits; auto.
       rewrite Hsp3. cbn [Z.eqb andb]. revert Eg. destruct gps; intros Eg'; [exfalso; apply Eg'; reflexivity | unfold spn; lia]. }
-  destruct G as [t3 [Hrun3 [Hsp3 [Hv3 [Hr3 Hret3]]]]].
+  destruct G as [t3 [Hrun3 [Hsp3 [Hv3 [Hr3 [Hret3 Hm3']]]]]].
   rewrite run_app, Hrun3.
   (* 4. ret *)
   cbn [run]. unfold step. rewrite Hret3. cbn [a64_step a64_reg].
@@ -847,6 +849,13 @@ Proof.
     + assert (N31 : (g, r) <> (0, 31)).
       { intros E; inversion E; subst. cbn [qget Z.eqb] in Hp. rewrite (testbit_above _ 31 31 Hp0) in Hp by lia. discriminate. }
       rewrite (U g r N31 Hd). reflexivity.
+  - cbn [set_ret st_mem]. rewrite Hm3'. exact Hm_t2.
+  - intros g r N31 Hns. cbn [set_ret st_reg].
+    rewrite Hr3; auto.
+    + rewrite Hr2; auto.
+      intros -> Hin. rewrite vps_regs in Hin. unfold vec_ids in Hin. apply bits_of_In in Hin. destruct Hin as [_ Hin].
+      unfold m1 in Hin. congruence.
+    + intros -> Hin. apply gps_in_m0 in Hin. destruct Hin as [Hin _]. unfold m0 in Hin. congruence.
 Qed.
 
 (* ------------------------------------------------------------------ sizes: PrologEpilogInfo agrees with finalize *)
@@ -944,7 +953,54 @@ Proof.
   split; [apply a64_sp_body_aligned; auto|]. split; [apply a64_stack_args_sp|].
   split; [intros Hv Hfp; apply a64_stack_args_fp; auto|].
   split; [intros Hne; apply a64_stack_args_sa; auto|].
-  intros s2 BO. apply (a64_epilog_correct s0 s1 s2 PP BO Hal Hlr).
+  intros s2 BO. destruct (a64_epilog_correct s0 s1 s2 PP BO Hal Hlr) as [s3 [H1 [H2 [H3 [H4 [H5 _]]]]]].
+  exists s3. splits; auto.
+Qed.
+
+(* what the prolog and the epilog must NOT change (same hypotheses as the round trip): the prolog writes memory only inside
+   the push/pop save area [sp0 - total, sp0) - the caller's memory at or above the entry sp and everything below the save area
+   are untouched - and changes no register except sp, x29 (frame pointer) and the SA register: arguments reach the body;
+   the epilog writes no memory and changes only sp and the registers the frame saved: return values leave as the body left them *)
+Theorem a64_frame_conditions s0 :
+  let sp0 := st_reg s0 0 31 in
+  st_ret s0 = None -> sp0 mod 16 = 0 -> 0 <= st_reg s0 0 30 < 2 ^ 64 ->
+  exists s1, run A64 (fst (prolog f o)) s0 = Some s1 /\
+    (forall z, z < sp0 - fin_pp f \/ sp0 <= z -> st_mem s1 z = st_mem s0 z) /\
+    (forall g r, (g, r) <> (0, 31) -> (has_fp = true -> (g, r) <> (0, 29)) -> (fin_sa f <> 31 -> (g, r) <> (0, fin_sa f)) ->
+                 st_reg s1 g r = st_reg s0 g r) /\
+    forall s2, a64_body_ok s0 s1 s2 ->
+      exists s3, run A64 (fst (epilog f o)) s2 = Some s3 /\
+        st_mem s3 = st_mem s2 /\
+        (forall g r, (g, r) <> (0, 31) -> Z.testbit (saved_regs f o g) r = false -> st_reg s3 g r = st_reg s2 g r).
+Proof.
+  intros sp0 Hret Hal Hlr.
+  destruct (a64_prolog_correct s0 Hret Hal) as [s1 [Hrun [PP Hok]]].
+  exists s1. split; [exact Hrun|]. split; [rewrite <- total_pp; apply PP|]. split; [apply PP|].
+  intros s2 BO. destruct (a64_epilog_correct s0 s1 s2 PP BO Hal Hlr) as [s3 [H1 [_ [_ [_ [_ [H6 H7]]]]]]].
+  exists s3. splits; auto.
+Qed.
+
+(* stack arguments END TO END on AArch64: what the caller stored at [entry sp + off] is readable after the prolog with the caller's
+   value at [sp + sa_offset_from_sp + off], at [x29 + sa_offset_from_sa + off] (frame pointer, repaired tree) and at
+   [SA register + sa_offset_from_sa + off] *)
+Theorem a64_stack_args_intact s0 :
+  let sp0 := st_reg s0 0 31 in
+  st_ret s0 = None -> sp0 mod 16 = 0 ->
+  exists s1, run A64 (fst (prolog f o)) s0 = Some s1 /\
+    forall off n v, 0 <= off -> holds (st_mem s0) (sp0 + off) n v ->
+      holds (st_mem s1) (st_reg s1 0 31 + fo_sa_from_sp o + off) n v /\
+      (fi_sa_fix f = true -> has_fp = true -> holds (st_mem s1) (st_reg s1 0 29 + fo_sa_from_sa o + off) n v) /\
+      (fin_sa f <> 31 -> holds (st_mem s1) (st_reg s1 0 (fin_sa f) + fo_sa_from_sa o + off) n v).
+Proof.
+  intros sp0 Hret Hal.
+  destruct (a64_prolog_correct s0 Hret Hal) as [s1 [Hrun [PP Hok]]].
+  exists s1. split; [exact Hrun|]. intros off n v Hoff Hh.
+  assert (K : holds (st_mem s1) (sp0 + off) n v).
+  { eapply holds_ext; [|exact Hh]. intros x Hx. apply (aq_mem _ _ PP). fold sp0. right. lia. }
+  splits.
+  - rewrite (aq_sp _ _ PP). fold sp0. rewrite (a64_stack_args_sp sp0). exact K.
+  - intros Hv Hfp. rewrite (a64_stack_args_fp s0 s1 Hv Hfp PP). exact K.
+  - intros Hne. rewrite (a64_stack_args_sa s0 s1 Hne PP). exact K.
 Qed.
 
 End A64Frame.
@@ -979,4 +1035,18 @@ Theorem a64_roundtrip_accepted f : wf_in f -> fi_arch f = A64 -> a64_realisable 
 Proof.
   intros WF HA HR HSA HADJ. destruct (a64_realisable_scope f WF HA HR) as [HV HNDA].
   exact (a64_roundtrip_sec f WF HA HV HNDA HSA HADJ).
+Qed.
+
+(* ------------------------------------------------------------------ round 5: the other side of the adjustment threshold *)
+(* a stack adjustment above 16777215 cannot be encoded by two add/sub immediates: both emitters report an error (the second
+   component is false) and the epilog emits nothing - no frame with such an adjustment gets a silently wrong prolog/epilog.
+   With a64_roundtrip_sec (adjustment <= 16777215) the case split on the adjustment is complete. *)
+Theorem a64_large_adjust_refused f : fi_arch f = A64 -> 16777215 < fo_stack_adj (finalize f) ->
+  snd (prolog f (finalize f)) = false /\ epilog f (finalize f) = ([], false).
+Proof.
+  intros HA H. unfold prolog, epilog. rewrite HA. unfold a64_prolog, a64_epilog, a64_adjust.
+  assert (E0 : (fo_stack_adj (finalize f) =? 0) = false) by (apply Z.eqb_neq; lia).
+  assert (E1 : (fo_stack_adj (finalize f) <=? 4095) = false) by (apply Z.leb_gt; lia).
+  assert (E2 : (fo_stack_adj (finalize f) <=? 16777215) = false) by (apply Z.leb_gt; lia).
+  rewrite E0, E1, E2. split; reflexivity.
 Qed.
